@@ -5,7 +5,7 @@
 From Coq Require Import List Arith Bool.
 Import ListNotations.
 From C17 Require Import Sem Progs Static Annot FutRaw.
-From C17 Require Exec ExecLive Ss FutCopy0 Per Owner Sd WitnessR8 Conserve Pool ConserveAll PoolD PoolFin PoolRe PoolN PoolReD PoolReFin WaitQ WaitQAll.
+From C17 Require Exec ExecLive Ss FutCopy0 Per Owner Sd WitnessR8 Conserve Pool ConserveAll PoolD PoolFin PoolRe PoolN PoolReD PoolReFin WaitQ WaitQAll FutPoll.
 From Coq Require Import Permutation.
 
 (* Data-race freedom of the model: whenever a thread is about to execute an instruction that reads
@@ -393,6 +393,32 @@ Theorem c17_sleeper_in_queue : forall s0 s u c m, initial s0 -> reach P s0 s ->
 Proof. exact WaitQAll.sleeper_in_queue. Qed.
 Print Assumptions c17_sleeper_in_queue.
 
+(* ---- A Future polled with IsComplete() by one thread while another thread calls Set() (scenario init_fut_poll k over
+   the program table FutPoll.P2: the poller calls IsComplete() up to k times, then Get(); generic class and void
+   specialisation have the same transcription), every schedule, any k: every access to m_ref_count / m_is_set / m_value
+   -- in particular the read in IsComplete() -- is made by a thread that owns FutureImpl::m_mutex; lock discipline
+   and exact wait queues.  The variant of IsComplete() that reads m_is_set without the mutex is rejected by the
+   checker (c17_futpoll_unlocked_read_rejected).  NOT proved here: absence of use-after-free for this scenario
+   (checked per enumerated schedule). *)
+Theorem c17_futpoll_lockset : forall k s, reach FutPoll.P2 (FutPoll.init_fut_poll k) s ->
+  forall t, stat (thr s t) = Ready ->
+  (forall x m, acc_var (fetch FutPoll.P2 (thr s t)) = Some x -> gv x = Some m -> own s m = Some t) /\
+  (forall q m, acc_que (fetch FutPoll.P2 (thr s t)) = Some q -> gq q = Some m -> own s m = Some t).
+Proof. exact FutPoll.fpoll_lockset. Qed.
+Print Assumptions c17_futpoll_lockset.
+
+Theorem c17_futpoll_discipline : forall k s, reach FutPoll.P2 (FutPoll.init_fut_poll k) s ->
+  Inv FutPoll.P2 FutPoll.An2 s /\ WaitQ.WQI s.
+Proof. exact FutPoll.fpoll_discipline. Qed.
+Print Assumptions c17_futpoll_discipline.
+
+Theorem c17_futpoll_unlocked_read_rejected :
+  check_prog gv gq FutPoll.p_fpoll_poller_unlocked ([n_; n_; n_; n_; n_; n_] ++ skipn 8 FutPoll.a_fpoll_poller) = false /\
+  check_prog gv gq FutPoll.p_fpoll_poller_unlocked ([n_; n_; f_; n_; n_; n_] ++ skipn 8 FutPoll.a_fpoll_poller) = false /\
+  acc_var (nth 2 FutPoll.p_fpoll_poller_unlocked IEnd) = Some ISSET /\ gv ISSET = Some FM.
+Proof. exact FutPoll.unlocked_read_rejected. Qed.
+Print Assumptions c17_futpoll_unlocked_read_rejected.
+
 (* ---- ExecutorThread where callbacks call Execute again from inside the callback (scenario init_execre), every
    schedule, any number of producers / callbacks / re-submissions: callbacks are conserved (none duplicated, none
    lost).  PARTIAL: uniqueness of the ids and the drained-at-destruction clause are not proved for this scenario. *)
@@ -429,3 +455,7 @@ Example ex_futasg_finishes : exists s, reach P init_fut_asg s /\
   stat (thr s 0) = Done /\ stat (thr s 1) = Done /\ alive s 1 = false /\ alive s 3 = false /\
   outs s = [(0, OUT_GET, THE_VALUE)] /\ fault s = None.
 Proof. exact PoolRe.futasg_finishes. Qed.
+
+Example ex_futpoll_finishes : exists s, reach FutPoll.P2 (FutPoll.init_fut_poll 3) s /\
+  stat (thr s 0) = Done /\ stat (thr s 1) = Done /\ alive s 1 = false /\ outs s = [(1, OUT_GET, THE_VALUE)] /\ fault s = None.
+Proof. exact FutPoll.fpoll_finishes. Qed.
